@@ -53,6 +53,10 @@ func callIsPlanar(g graph.Graph) (res string) {
 	return "f"
 }
 
+// graphs with more vertices are not given to the model of IsPlanar by the driver (same constant
+// in ocaml/c11/driver.ml)
+const modelMax = 200
+
 const (
 	stUnknown = 0
 	stPlanar  = 1
@@ -60,14 +64,14 @@ const (
 )
 
 // next status of the specification value along one transformation, when the new graph is too
-// large for the exhaustive oracle.  r, s, i, p leave the value unchanged; d, v (subgraph) keep
-// "planar"; a (supergraph) keeps "non-planar" (theorems of coq/Props/C11.v); c (contraction)
-// is not covered by a theorem and gives "unknown".
+// large for the exhaustive oracle.  r, s, i, p leave the value unchanged; d, v (subgraph) and
+// c (contraction: a minor) keep "planar"; a (supergraph) keeps "non-planar" (theorems
+// C11_spec_* of coq/Props/C11.v).
 func propagate(st int, kind byte) int {
 	switch kind {
 	case 'r', 's', 'i', 'p':
 		return st
-	case 'd', 'v':
+	case 'd', 'v', 'c':
 		if st == stPlanar {
 			return stPlanar
 		}
@@ -200,7 +204,13 @@ func exec(line string) hx.Result {
 		if st == stUnknown && ans != "panic" {
 			shown = "?"
 		}
-		obs = append(obs, fmt.Sprintf("%d.%d.%d=%s", g.n, g.m(), g.hash(), shown))
+		// second field: the answer itself, compared with the executable model of IsPlanar
+		// (coq/Planar/DmpModel.v) on every graph, also where the specification's value is unknown
+		modelAns := ans
+		if g.n > modelMax {
+			modelAns = "-"
+		}
+		obs = append(obs, fmt.Sprintf("%d.%d.%d=%s:%s", g.n, g.m(), g.hash(), shown, modelAns))
 		nt, nb := nontrivialGraph(g)
 		if nt {
 			res.Nontrivial = true
